@@ -153,6 +153,9 @@ def dataset_spec(draw, naming=None, dense=None, raw=None, curated=None, features
         spec['chmap'] = sorted(spec['chmap'])
     spec['chmap_dtype'] = draw(st.sampled_from(ID_DTYPES))
     spec['pos'] = draw(positions(nc))
+    # positions are stored as floats (integer storage makes the merger and the ALF exporter fail
+    # on the unchanged tree: 'int_array += float', so integer files are not an accepted input)
+    spec['pos_dtype'] = draw(st.sampled_from(['float64', 'float64', 'float32']))
     sh = _opt(draw, shanks, st.booleans())
     spec['shanks'] = draw(st.lists(st.integers(0, 2), min_size=nc, max_size=nc)) if sh else None
     spec['probes_file'] = draw(st.booleans()) and not merge_ready
@@ -163,7 +166,8 @@ def dataset_spec(draw, naming=None, dense=None, raw=None, curated=None, features
     is_dense = _opt(draw, dense, st.sampled_from([True, True, False]))
     t = {'dense': is_dense, 'dtype': draw(st.sampled_from(['float32', 'float64'])),
          'int': _opt(draw, int_templates, st.booleans()),
-         'nan_template': bool(nan and draw(st.integers(0, 3)) == 0)}
+         'nan_template': bool(nan and draw(st.integers(0, 3)) == 0),
+         'nan_kind': draw(st.sampled_from(['all', 'every-channel-once', 'one-channel']))}
     if not is_dense:
         nloc = draw(st.integers(2, nc))
         cols = []
@@ -311,7 +315,8 @@ def build(spec, dirpath, write_params=True):
     T.chmap = np.array(spec['chmap'], dtype=spec['chmap_dtype'])
     save('channel_map.npy', T.chmap, vec=True)
     T.pos = np.array(spec['pos'], dtype=np.float64)
-    save('channel_positions.npy', T.pos)
+    T.pos_stored = T.pos.astype(spec.get('pos_dtype', 'float64'))
+    save('channel_positions.npy', T.pos_stored)
     if spec['shanks'] is not None:
         T.shanks = np.array(spec['shanks'], dtype=np.int32)
         save('channel_shanks.npy', T.shanks, vec=True)
@@ -348,8 +353,16 @@ def build(spec, dirpath, write_params=True):
         k = nt - 1 if (nt - 1) not in spec['spike_templates'] else None
         unused = [i for i in range(nt) if i not in spec['spike_templates']]
         if unused:
-            data[unused[0]] = np.nan
-            T.nan_template = unused[0]
+            kind = t.get('nan_kind', 'all')
+            if kind == 'all':
+                data[unused[0]] = np.nan
+                T.nan_template = unused[0]
+            elif kind == 'every-channel-once':
+                # NaN entries on every channel, but the template is not empty: it must load as stored
+                for j in range(data.shape[2]):
+                    data[unused[0], j % nsw, j] = np.nan
+            else:
+                data[unused[0], :, 0] = np.nan
     T.templates = data
     save('templates.npy', data)
     if spec['wm']:
@@ -508,3 +521,37 @@ def large_spec(ns, seed=1, nt=5, nc=8, nsw=4):
                 'ind_dtype': 'uint32', 'dtype': 'float32', 'zero_positive': True,
                 'rows_dtype': 'int64'},
         'tf': None, 'attrs': [], 'nan': False, 'raw': None}
+
+
+def large_curated_spec(nt=300, ns=1500, nc=4, nsw=3, seed=3):
+    """Hand-made: several hundred templates stored as uint16 ids, a few merges that involve high
+    template ids (products such as id * n_clusters exceed the uint16 range)."""
+    rs = np.random.RandomState(seed)
+    spec = large_spec(ns, seed=seed, nt=nt, nc=nc, nsw=nsw)
+    st_ = rs.randint(0, nt, size=ns)
+    st_[:nt] = np.arange(nt)            # every template has at least one spike
+    spec['spike_templates'] = st_.tolist()
+    spec['tmpl_dtype'] = 'uint16'
+    spec['pcf'] = None
+    spec['wm'] = True
+    spec['curation'] = [
+        {'op': 'merge', 'a': 5, 'b': nt - 50},          # low + high template -> new id
+        {'op': 'merge', 'a': nt - 42, 'b': nt - 32},    # two high templates
+        {'op': 'split', 'a': nt - 20, 'cut': 1, 'interleave': False},
+    ]
+    return spec
+
+
+def large_pca_spec(ns=1200, seed=5):
+    """Hand-made: no feature files, raw data in a single chunk, > 1000 spikes."""
+    spec = large_spec(ns, seed=seed, nt=3, nc=4, nsw=4)
+    rs = np.random.RandomState(seed)
+    n_raw = 3000
+    spec['n_raw'] = n_raw
+    spec['samples'] = np.sort(rs.randint(0, n_raw, size=ns)).tolist()
+    spec['spike_templates'] = rs.randint(0, 3, size=ns).tolist()
+    spec['rate'] = 100.0
+    spec['pcf'] = None
+    spec['raw'] = {'backend': 'flat', 'dtype': 'int16', 'chunk': n_raw, 'parts': [n_raw],
+                   'offset': 0, 'ext': '.dat', 'names': 'asc'}
+    return spec
